@@ -152,11 +152,14 @@ class SSHKnownHosts:
             cert: Optional[SSHCertificate] = None
             subject: Optional['X509NamePattern'] = None
 
+            # The key may be followed by a comment in any encoding
+            key_data = data.encode('utf-8')
+
             try:
-                key = import_public_key(data)
+                key = import_public_key(key_data)
             except KeyImportError:
                 try:
-                    cert = import_certificate(data)
+                    cert = import_certificate(key_data)
                 except KeyImportError:
                     if not _x509_available: # pragma: no cover
                         continue
